@@ -1419,6 +1419,9 @@ def _bytearray(it, a, k):
 
 def _list(it, a, k):
     if not a:
+        if getattr(it, 'sym_containers', False):
+            from .symcoll import NameSetList
+            return NameSetList.empty()
         return []
     if isinstance(a[0], SymList):
         return a[0]
@@ -1434,10 +1437,17 @@ def _tuple(it, a, k):
 def _set(it, a, k):
     if a and hasattr(a[0], 'pyvc_toset'):
         return a[0].pyvc_toset(it)
+    if getattr(it, 'sym_containers', False):
+        from .symcoll import SymSet, to_symset
+        import z3 as _z3
+        return SymSet.empty() if not a else to_symset(it, a[0], _z3.StringSort()).copy()
     return set(it.hashable(x) for x in it.iterate(a[0])) if a else set()
 
 
 def _dict(it, a, k):
+    if not a and not k and getattr(it, 'sym_containers', False):
+        from .symcoll import SymMap
+        return SymMap.empty(it.ctx)
     d = {}
     if a:
         if isinstance(a[0], dict):
@@ -1868,6 +1878,23 @@ def _methodtype(it, a, k):
     return Bound(a[0], a[1])
 
 
+class MapVal:
+    """map(f, xs): lazily applied; materialised by list()/iteration when xs is concrete."""
+
+    def __init__(self, fn, seqs):
+        self.fn, self.seqs = fn, list(seqs)
+
+    def pyvc_iter(self, it, loop):
+        cols = [it.iterate(s) for s in self.seqs]
+        return [it.call(self.fn, list(args), {}) for args in zip(*cols)]
+
+    def pyvc_tolist(self, it):
+        try:
+            return self.pyvc_iter(it, None)
+        except Unsupported:
+            return Opaque(f'list(map({self.fn!r}, <symbolic>))')
+
+
 class PartialVal:
     """functools.partial"""
 
@@ -1995,6 +2022,8 @@ def install(it):
     reg('math.ceil', _math_ceil)
     reg('math.floor', _math_floor)
     reg('builtins.setattr', _setattr)
+    reg('collections.OrderedDict', _dict)
+    reg('builtins.map', lambda it2, a, k: MapVal(a[0], a[1:]))
     reg('functools.partial', lambda it2, a, k: PartialVal(a[0], a[1:], k))
     reg('inspect.getmembers', _inspect_getmembers)
     reg('inspect.ismethod', lambda it2, a, k: isinstance(a[0], Bound))
